@@ -105,7 +105,7 @@ func cmdRun(args []string) int {
 		}
 	}
 	if *redirectsFile != "" {
-		if err := eng.loadRedirects(*redirectsFile, *pkg); err != nil {
+		if err := eng.loadRedirectFiles("", *redirectsFile, *pkg); err != nil {
 			fmt.Fprintln(os.Stderr, "redirects:", err)
 			return 2
 		}
@@ -148,6 +148,39 @@ func (e *Engine) loadRedirects(file, pkgPath string) error {
 	}
 	var tbl map[string]string
 	if err := json.Unmarshal(data, &tbl); err != nil {
+		return err
+	}
+	return e.setRedirects(tbl, pkgPath)
+}
+
+// readRedirectTables merges the comma separated redirect files (relative to hdir when given).
+func readRedirectTables(hdir, files string) (map[string]string, error) {
+	tbl := map[string]string{}
+	for _, f := range strings.Split(files, ",") {
+		if f == "" {
+			continue
+		}
+		if hdir != "" {
+			f = hdir + "/" + f
+		}
+		data, err := os.ReadFile(f)
+		if err != nil {
+			return nil, err
+		}
+		var t map[string]string
+		if err := json.Unmarshal(data, &t); err != nil {
+			return nil, err
+		}
+		for k, v := range t {
+			tbl[k] = v
+		}
+	}
+	return tbl, nil
+}
+
+func (e *Engine) loadRedirectFiles(hdir, files, pkgPath string) error {
+	tbl, err := readRedirectTables(hdir, files)
+	if err != nil {
 		return err
 	}
 	return e.setRedirects(tbl, pkgPath)
